@@ -157,6 +157,7 @@ def main():
     evt_with_width = [a for a, _, _ in d["width"] if a[0].isalpha() and a not in ("Decay", "End")]
     cases = json.loads(Path(args.replay).read_text())["cases"] if args.replay else gen_cases(ck.rng, args.tier, evt_with_width)
     impl = vlib.run_impl("c07.py", cases)
+    decpost.front_end_check(ck, "C07fe", cases)
     terms = [f"vqueries (fun n => pd_get n db_width) gev {decpost.coq_stmts(c['stmts'])}" for c in cases]
     model = vlib.run_model("C07", ["Lib.PyDict", "Gen.GenParticles", "Dec.Syntax", "Dec.Post", "Dec.Queries"], "fun v : val => v", terms, shard=60)
     diffs = vlib.compare_veq(ck, cases, impl, model)
